@@ -394,3 +394,214 @@ pub fn scenario(ch: &mut Chooser, thorough: bool) -> Exec {
     }
     Exec { outcome: Digest::of64(&obs), violation, features: feats }
 }
+
+// ---------------------------------------------------------------------------------------
+// Part 2: timed latencies. The link is not held: every message (SYN, data, FIN) gets its
+// latency from the explorer through the latency-variate hook (range 1..9 ms at a 1 ms
+// tick, so segments overtake each other), both directions carry data at once, and a
+// hold/release or a partition (+ repair) may be imposed mid-stream.
+
+#[derive(Default)]
+struct Side {
+    accepted: Vec<u8>,
+    consumed: Vec<u8>,
+    eof: bool,
+    rerr: Option<String>,
+    werr: Option<String>,
+    connected: bool,
+}
+
+async fn pump(s: TcpStream, me: Rc<RefCell<Side>>, chunks: Vec<usize>, base: u8, burst: bool, rbuf: usize, split: bool, rdelay: u64) {
+    let (mut rd, mut wr): (Box<dyn tokio::io::AsyncRead + Unpin>, Box<dyn tokio::io::AsyncWrite + Unpin>) = if split {
+        let (r, w) = s.into_split();
+        (Box::new(r), Box::new(w))
+    } else {
+        let (r, w) = tokio::io::split(s);
+        (Box::new(r), Box::new(w))
+    };
+    let mw = me.clone();
+    let writer = async move {
+        let mut i = 0usize;
+        for c in chunks {
+            let data: Vec<u8> = (0..c).map(|k| base.wrapping_add(((i + k) as u8).wrapping_mul(5))).collect();
+            match wr.write_all(&data).await {
+                Ok(()) => mw.borrow_mut().accepted.extend_from_slice(&data),
+                Err(e) => {
+                    mw.borrow_mut().werr = Some(errk(&e));
+                    return;
+                }
+            }
+            i += c;
+            if !burst {
+                tokio::time::sleep(std::time::Duration::from_millis(1)).await;
+            }
+        }
+        if let Err(e) = wr.shutdown().await {
+            mw.borrow_mut().werr = Some(format!("shutdown {}", errk(&e)));
+        }
+        // keep the write half alive: dropping it is a separate (C04) subject
+        std::future::pending::<()>().await;
+    };
+    let mr = me.clone();
+    let reader = async move {
+        let mut buf = vec![0u8; rbuf];
+        if rdelay > 0 {
+            tokio::time::sleep(std::time::Duration::from_millis(rdelay)).await;
+        }
+        loop {
+            match rd.read(&mut buf).await {
+                Ok(0) => {
+                    mr.borrow_mut().eof = true;
+                    break;
+                }
+                Ok(n) => mr.borrow_mut().consumed.extend_from_slice(&buf[..n]),
+                Err(e) => {
+                    mr.borrow_mut().rerr = Some(errk(&e));
+                    break;
+                }
+            }
+        }
+        std::future::pending::<()>().await;
+    };
+    tokio::join!(writer, reader);
+}
+
+struct HookGuard;
+impl Drop for HookGuard {
+    fn drop(&mut self) {
+        turmoil::verif::set_chooser(None);
+    }
+}
+
+pub fn timed_scenario(ch: &mut Chooser, thorough: bool) -> Exec {
+    let caps: &[usize] = if thorough { &[1, 2, 8] } else { &[1, 8] };
+    let cap = *ch.of("tcp_capacity", caps);
+    let chunkings: &[&[usize]] = if thorough { &[&[1, 1, 1], &[2, 1, 2], &[1, 1, 1, 1, 1]] } else { &[&[1, 1, 1], &[2, 1, 2]] };
+    let c_chunks: Vec<usize> = ch.of("client_chunking", chunkings).to_vec();
+    let s_opts: &[&[usize]] = if thorough { &[&[], &[1, 2], &[1, 1, 1]] } else { &[&[], &[1, 2]] };
+    let s_chunks: Vec<usize> = ch.of("server_chunking", s_opts).to_vec();
+    let burst = ch.flag("writes_back_to_back");
+    let rbufs: &[usize] = if thorough { &[1, 3, 16] } else { &[1, 16] };
+    let rbuf = *ch.of("read_buffer", rbufs);
+    let split = ch.flag("owned_split_halves");
+    let rdelay = *ch.of("readers_start_after_ms", &[0u64, 25]);
+    // 0 none, 1 hold..release, 2 partition (never repaired), 3 partition..repair
+    let fault = ch.choose("mid_stream_fault(none|hold-release|partition|partition-repair)", 4);
+    let fault_at = if fault == 0 { 0 } else { *ch.of("fault_before_step", if thorough { &[1usize, 2, 3, 5][..] } else { &[1usize, 3][..] }) };
+    let fault_len = if fault == 1 || fault == 3 { *ch.of("fault_lasts_steps", &[1usize, 4]) } else { 0 };
+
+    let mut b = builder(1);
+    b.tcp_capacity(cap).min_message_latency(std::time::Duration::from_millis(1)).max_message_latency(std::time::Duration::from_millis(9));
+    let mut sim = b.build();
+    let cs: Rc<RefCell<Side>> = Rc::new(RefCell::new(Side::default()));
+    let ss: Rc<RefCell<Side>> = Rc::new(RefCell::new(Side::default()));
+    let (ss2, sc) = (ss.clone(), s_chunks.clone());
+    sim.host("srv", move || {
+        let (ss2, sc) = (ss2.clone(), sc.clone());
+        async move {
+            let l = TcpListener::bind(("0.0.0.0", 80)).await?;
+            let (s, _) = l.accept().await?;
+            ss2.borrow_mut().connected = true;
+            pump(s, ss2, sc, 0x80, burst, rbuf, split, rdelay).await;
+            Ok(())
+        }
+    });
+    let (cs2, cc) = (cs.clone(), c_chunks.clone());
+    sim.host("cli", move || {
+        let (cs2, cc) = (cs2.clone(), cc.clone());
+        async move {
+            match TcpStream::connect(("srv", 80)).await {
+                Ok(s) => {
+                    cs2.borrow_mut().connected = true;
+                    pump(s, cs2, cc, 0x10, burst, rbuf, split, rdelay).await;
+                }
+                Err(e) => cs2.borrow_mut().werr = Some(format!("connect {}", errk(&e))),
+            }
+            std::future::pending::<()>().await;
+            Ok(())
+        }
+    });
+
+    // latency of every message chosen by the explorer (deviation = not the minimum)
+    let chp: *mut Chooser = ch;
+    let _guard = HookGuard;
+    turmoil::verif::set_chooser(Some(Box::new(move |site, n| {
+        if site != "latency-variate" {
+            return 0;
+        }
+        let c = unsafe { &mut *chp };
+        c.deviate("latency-variate", n)
+    })));
+
+    let mut violation: Option<Violation> = None;
+    let mut obs: Vec<String> = vec![];
+    let total = if thorough { 110usize } else { 90 };
+    let check_prefix = |cs: &Side, ss: &Side| -> Option<Violation> {
+        if !ss.accepted.starts_with(&cs.consumed) {
+            return Some(Violation::new("prefix", format!("client read {:?}, which is not a prefix of what the server's writes accepted {:?}", cs.consumed, ss.accepted)));
+        }
+        if !cs.accepted.starts_with(&ss.consumed) {
+            return Some(Violation::new("prefix", format!("server read {:?}, which is not a prefix of what the client's writes accepted {:?}", ss.consumed, cs.accepted)));
+        }
+        None
+    };
+    for k in 0..total {
+        if fault != 0 && k == fault_at {
+            match fault {
+                1 => sim.hold("cli", "srv"),
+                _ => sim.partition("cli", "srv"),
+            }
+            obs.push(format!("step {k}: {}", if fault == 1 { "hold" } else { "partition" }));
+        }
+        if (fault == 1 || fault == 3) && k == fault_at + fault_len {
+            if fault == 1 {
+                sim.release("cli", "srv")
+            } else {
+                sim.repair("cli", "srv")
+            }
+            obs.push(format!("step {k}: {}", if fault == 1 { "release" } else { "repair" }));
+        }
+        if let Err(e) = vx_core::catch(|| sim.step()).unwrap_or_else(|p| Err(p.into())) {
+            violation = Some(Violation::new("sim-error", e.to_string()));
+            break;
+        }
+        if let Some(v) = check_prefix(&cs.borrow(), &ss.borrow()) {
+            violation = Some(v);
+            break;
+        }
+    }
+    turmoil::verif::set_chooser(None);
+    let (c, s) = (cs.borrow(), ss.borrow());
+    obs.push(format!("client: accepted {:?} consumed {:?} eof {} rerr {:?} werr {:?}", c.accepted, c.consumed, c.eof, c.rerr, c.werr));
+    obs.push(format!("server: accepted {:?} consumed {:?} eof {} rerr {:?} werr {:?}", s.accepted, s.consumed, s.eof, s.rerr, s.werr));
+    if violation.is_none() && fault < 2 {
+        // healthy link (a hold only delays): everything accepted is read, then EOF, no errors
+        let want_c: usize = c_chunks.iter().sum();
+        let want_s: usize = s_chunks.iter().sum();
+        let problems: Vec<String> = [
+            (!c.connected || !s.connected).then(|| "connection was not established".to_string()),
+            (c.accepted.len() != want_c).then(|| format!("client's writes accepted only {} of {want_c} bytes ({:?})", c.accepted.len(), c.werr)),
+            (s.accepted.len() != want_s).then(|| format!("server's writes accepted only {} of {want_s} bytes ({:?})", s.accepted.len(), s.werr)),
+            (s.consumed != c.accepted).then(|| format!("server read {:?} of {:?}", s.consumed, c.accepted)),
+            (c.consumed != s.accepted).then(|| format!("client read {:?} of {:?}", c.consumed, s.accepted)),
+            (!c.eof).then(|| format!("client never saw end-of-file (read error {:?})", c.rerr)),
+            (!s.eof).then(|| format!("server never saw end-of-file (read error {:?})", s.rerr)),
+        ]
+        .into_iter()
+        .flatten()
+        .collect();
+        if !problems.is_empty() {
+            violation = Some(Violation::new("delivery", format!("healthy link, both sides keep reading, {} steps after the last write: {}", total, problems.join("; "))));
+        }
+    }
+    let mut feats = vec![];
+    if ch.deviations() > 0 {
+        feats.push("reordered-latency");
+    }
+    if let Some(v) = violation.as_mut() {
+        v.sig = format!("timed|{}", v.clause);
+        v.scenario = format!("c02-timed tier={} cap={cap} c={c_chunks:?} s={s_chunks:?} burst={burst} rdelay={rdelay} rbuf={rbuf} split={split} fault={fault}@{fault_at}+{fault_len}", if thorough { "thorough" } else { "quick" });
+        v.actions = obs.clone();
+    }
+    Exec { outcome: Digest::of64(&obs), violation, features: feats }
+}
